@@ -885,7 +885,15 @@ pub fn determinism(o: &Opts) -> R<()> {
     for (name, code, n) in &progs {
         let mut seen: BTreeMap<String, usize> = BTreeMap::new();
         for _ in 0..*n {
-            let r = vmrun::analyze(code, &lim, ScriptedWatchdog::new(16, None, 500_000));
+            // a poll budget 45 times the largest count seen on the pinned tree: an analysis that does not end is not
+            // repeated (halting is C03 / C14's question, and they ask it under budgets of their own)
+            let wd = ScriptedWatchdog::new(16, None, 20_000);
+            let r = vmrun::analyze(code, &lim, wd.clone());
+            if wd.exhausted.get() {
+                *seen.entry("stopped".to_string()).or_insert(0) += 1;
+                total_runs += 1;
+                break;
+            }
             let key = match &r {
                 // conflict explanations are not part of the result (they quote type-variable numbers)
                 Ok(Ok(l)) => format!("ok:{}", J::Array(crate::layouts::entries_json(l).into_iter().map(|mut e| { e.as_object_mut().map(|o| o.remove("idx")); e }).collect())),
